@@ -515,6 +515,31 @@ def wrapper_image(ck, label, w, inner_space, mode, any_input=False):
     return tr, it, S, out, pre
 
 
+def action_image(ck, label, w, mode="real"):
+    """for every member of the action space the wrapper advertises: the action handed to the wrapped environment (w.func(action)) is a
+    member of the wrapped environment's action space (`sampled actions ... are accepted`, through an action wrapper)"""
+    def f(w_, a):
+        sp = w_.env.action_space
+        x = w_.func(a)
+        return {"obs": x, "low": sp.low, "high": sp.high, "member": sp.contains(x)}
+    outer = w.action_space
+    tr = trace(f, w, jnp.zeros(outer.shape), argnames=["w", "a"], label=f"{label}: func(action) in the wrapped environment's action_space")
+    ck.encoded(tr)
+    it = Interp(mode=mode)
+    leaves = [l for l in jax.tree_util.tree_leaves(w) if eqx.is_array(l)]
+    given = {n: it.lift(np.asarray(l), av.dtype) for n, av, l in zip(tr.in_names, tr.in_avals, leaves) if n != "a"}
+    S = tr.symbols(it, given=given)
+    out = tr.run(it, S)
+    a = S["a"]
+    pre = member_terms(it.o, a, it.lift(np.asarray(outer.low)), it.lift(np.asarray(outer.high)))
+    if mode == "real":
+        pre = pre + inf_axioms() + [z3.And(t > -INF, t < INF) for t in a.reshape(-1)]
+    goal = conj(member_terms(it.o, out["obs"], out["low"], out["high"]) + [out["member"][()]])
+    ck.prove(f"wrap.{label}.inner_action_in_inner_space,mode={mode.upper()}", pre, goal, replay=replay_member(tr, S, it),
+             margin_goal=implies(conj(pre + fp_nice(sym_inputs(S))), goal) if mode == "fp32" else None)
+    return tr, it, S, out, pre
+
+
 def observation_is_func(ck, label, w):
     """w.observation(state) is literally func(inner observation(inner state)) — same term"""
     st = jax.eval_shape(lambda k: w.initial(key=k), jr.key(0))
@@ -532,7 +557,10 @@ def sec_wrappers(ck):
     envs = {"cartpole": CartPole(), "mountain_car": MountainCar(), "continuous_mountain_car": ContinuousMountainCar(), "acrobot": Acrobot(), "pendulum": Pendulum()}
     dyadic = {"mountain_car": MountainCar(min_position=-1.0, max_position=1.0, max_speed=0.5),
               "continuous_mountain_car": ContinuousMountainCar(min_position=-1.0, max_position=1.0, max_speed=0.5),
-              "acrobot": Acrobot(max_vel_1=4.0, max_vel_2=8.0), "pendulum": Pendulum()}
+              "acrobot": Acrobot(max_vel_1=4.0, max_vel_2=8.0), "pendulum": Pendulum(),
+              # boxes that are NOT symmetric about 0 (an affine map is fixed by two points: a slope with a wrong intercept is invisible on symmetric boxes)
+              "mountain_car_asymmetric": MountainCar(min_position=-3.0, max_position=1.0, max_speed=0.5),
+              "continuous_mountain_car_asymmetric": ContinuousMountainCar(min_position=-3.0, max_position=1.0, max_speed=0.25)}
     first = True
     for name, env in envs.items():
         with ck.section(f"wrap.clip.{name}"):
@@ -557,6 +585,18 @@ def sec_wrappers(ck):
                     concrete.validate(ck, tr, n=2, seed=ck.seed)
                     half = it.o.le(np.asarray(out["obs"], dtype=object).reshape(-1)[0], Fraction(1, 2))
                     ck.control("control.wrap.rescale.image_not_in_half_range", pre, half)
+    # action wrappers: what reaches the wrapped environment is a member of ITS action space
+    for name, env in (("pendulum", Pendulum()), ("continuous_mountain_car", ContinuousMountainCar()),
+                      ("continuous_mountain_car_asymmetric", ContinuousMountainCar(min_action=-1.0, max_action=3.0))):
+        for rng_ in ((-1.0, 1.0), (0.0, 4.0)):
+            with ck.section(f"wrap.rescale_action.{name}.{rng_}"):
+                w = W.RescaleAction(env, min=jnp.array(rng_[0]), max=jnp.array(rng_[1]))
+                tr, it, S, out, pre = action_image(ck, f"RescaleAction[{rng_[0]},{rng_[1]}]@{name}", w)
+                if name == "pendulum" and rng_[0] == -1.0:
+                    concrete.validate(ck, tr, n=2, seed=ck.seed)
+        with ck.section(f"wrap.clip_action.{name}"):
+            w = W.ClipAction(env)
+            action_image(ck, f"ClipAction@{name}", w, mode="fp32")
     with ck.section("wrap.rescale.cartpole"):
         # unbounded components keep infinite targets (the meaningful configuration for a Box with infinite bounds)
         env = CartPole(x_threshold=2.0, theta_threshold_radians=0.25)
